@@ -806,6 +806,19 @@ example : (segs [⟨0, 0⟩, ⟨2, 0⟩, ⟨2, 2⟩, ⟨0, 2⟩, (⟨0, 0⟩ : P
     windingE (EPt.ofPt ⟨1, 1⟩) [⟨0, 0⟩, ⟨2, 0⟩, ⟨2, 2⟩, ⟨0, 2⟩, ⟨0, 0⟩] = 1 ∧
     windingE (EPt.ofPt ⟨-1, 1⟩) [⟨0, 0⟩, ⟨2, 0⟩, ⟨2, 2⟩, ⟨0, 2⟩, ⟨0, 0⟩] = 0 := by decide +kernel
 
+/-- the hypotheses of the `level_…` theorems on that square -/
+example : windingE (EPt.ofPt ⟨1, 1⟩) [⟨0, 0⟩, ⟨2, 0⟩, ⟨2, 2⟩, ⟨0, 2⟩, ⟨0, 0⟩] = 1 ∨
+    windingE (EPt.ofPt ⟨1, 1⟩) [⟨0, 0⟩, ⟨2, 0⟩, ⟨2, 2⟩, ⟨0, 2⟩, ⟨0, 0⟩] = -1 :=
+  (level_winding_first_interval 1 1 _ (by decide +kernel) (by decide +kernel)).2 (by decide +kernel)
+example : windingE (EPt.ofPt ⟨3, 1⟩) [⟨0, 0⟩, ⟨2, 0⟩, ⟨2, 2⟩, ⟨0, 2⟩, ⟨0, 0⟩] =
+      windingE (EPt.ofPt ⟨1, 1⟩) [⟨0, 0⟩, ⟨2, 0⟩, ⟨2, 2⟩, ⟨0, 2⟩, ⟨0, 0⟩] + 1 ∨
+    windingE (EPt.ofPt ⟨3, 1⟩) [⟨0, 0⟩, ⟨2, 0⟩, ⟨2, 2⟩, ⟨0, 2⟩, ⟨0, 0⟩] =
+      windingE (EPt.ofPt ⟨1, 1⟩) [⟨0, 0⟩, ⟨2, 0⟩, ⟨2, 2⟩, ⟨0, 2⟩, ⟨0, 0⟩] - 1 :=
+  level_winding_step 1 3 1 _ (by decide +kernel) (by decide +kernel) (by norm_num) (by decide +kernel)
+example : 2 ≤ ((segs [⟨0, 0⟩, ⟨2, 0⟩, ⟨2, 2⟩, ⟨0, 2⟩, (⟨0, 0⟩ : Pt)]).flatMap (crossXs 1)).length :=
+  (level_crossing_exists 1 _ (by decide +kernel) (by decide +kernel) ⟨⟨0, 0⟩, by simp, by norm_num⟩
+    ⟨⟨2, 2⟩, by simp, by norm_num⟩).2.2
+
 /-! ### an `Inside` scan midpoint exists: the existence hypothesis of `interior_strict_partial` removed -/
 
 /- Full statement: for every `polyValid` polygon the model's `interior_point` is `Inside`.
@@ -816,7 +829,8 @@ example : (segs [⟨0, 0⟩, ⟨2, 0⟩, ⟨2, 2⟩, ⟨0, 2⟩, (⟨0, 0⟩ : P
    (a) all rings closed, (b) the hit abscissae pairwise distinct (a repeated abscissa is a point where
    two edges meet off their vertices, excluded by simplicity), (c) hole coordinates inside the bounding
    box of the exterior ring and (d) every hole crossing has an exterior-ring crossing to its left
-   (holes lie inside the shell). (b)–(d) are not derived from `polyValid` here. -/
+   (holes lie inside the shell). `interior_strict_valid_partial` below derives (a), (c) and the
+   one-ring part of (b) from `polyValid`. -/
 /-- set-up shared by the theorems below: the scan level avoids every vertex and lies strictly
 between the lowest and the highest vertex of the exterior ring -/
 private theorem scan_setup (poly : Poly) (mn mx : Pt)
@@ -1078,6 +1092,10 @@ theorem interior_polygon_inside_simple (len : Pt → Pt → Rat) (poly : Poly)
 example : interior (fun _ _ => 1) (fun q => locate (.polygon q))
     (.polygon ⟨[⟨0, 0⟩, ⟨4, 0⟩, ⟨4, 1⟩, ⟨1, 1⟩, ⟨1, 3⟩, ⟨0, 3⟩, ⟨0, 0⟩], []⟩) = some ⟨1 / 2, 3 / 2⟩ := by
   decide +kernel
+example : ∃ x, interior (fun _ _ => 1) (fun q => locate (.polygon q))
+      (.polygon ⟨[⟨0, 0⟩, ⟨4, 0⟩, ⟨4, 1⟩, ⟨1, 1⟩, ⟨1, 3⟩, ⟨0, 3⟩, ⟨0, 0⟩], []⟩) = some x ∧
+    locate (.polygon ⟨[⟨0, 0⟩, ⟨4, 0⟩, ⟨4, 1⟩, ⟨1, 1⟩, ⟨1, 3⟩, ⟨0, 3⟩, ⟨0, 0⟩], []⟩) x = .inside :=
+  interior_polygon_inside_simple _ _ rfl (by decide +kernel)
 
 /-- a point `Inside` one member polygon is `Inside` the `MultiPolygon` -/
 private theorem locate_multiPolygon_of_member (ps : List Poly) (poly : Poly) (hp : poly ∈ ps) (x : Pt)
@@ -1133,6 +1151,13 @@ theorem interior_multipolygon_inside_simple (len : Pt → Pt → Rat) (ps : List
 example : interior (fun _ _ => 1) (fun q => locate (.polygon q))
     (.multiPolygon [⟨[⟨0, 0⟩, ⟨1, 0⟩, ⟨1, 1⟩, ⟨0, 0⟩], []⟩,
       ⟨[⟨5, 0⟩, ⟨9, 0⟩, ⟨9, 4⟩, ⟨5, 4⟩, ⟨5, 0⟩], []⟩]) = some ⟨7, 2⟩ := by decide +kernel
+
+example : ∃ x, interior (fun _ _ => 1) (fun q => locate (.polygon q))
+      (.multiPolygon [⟨[⟨0, 0⟩, ⟨1, 0⟩, ⟨1, 1⟩, ⟨0, 0⟩], []⟩,
+        ⟨[⟨5, 0⟩, ⟨9, 0⟩, ⟨9, 4⟩, ⟨5, 4⟩, ⟨5, 0⟩], []⟩]) = some x ∧
+    locate (.multiPolygon [⟨[⟨0, 0⟩, ⟨1, 0⟩, ⟨1, 1⟩, ⟨0, 0⟩], []⟩,
+        ⟨[⟨5, 0⟩, ⟨9, 0⟩, ⟨9, 4⟩, ⟨5, 4⟩, ⟨5, 0⟩], []⟩]) x = .inside :=
+  interior_multipolygon_inside_simple _ _ (by simp) (by decide +kernel)
 
 /-! ### GeometryCollection: a member of the highest dimension present -/
 
